@@ -57,7 +57,7 @@ def run(ctx):
     ctx.cov.update(strings_enumerated=enumerated, random_strings=16 * nrand, headers_returned=tot.get('returned', 0),
                    headers_rejected=tot.get('rejected', 0), returned_with_path=tot.get('with_path', 0),
                    strings_containing_dotdot=tot.get('dotdot', 0), max_string_length=maxlen)
-    ctx.cov['rule'] = ('all strings of length 1..%d over {., /, \\, 0xFF, NUL, a} through 13+ channels x 5 OS types, each parsed '
+    ctx.cov['rule'] = ('all strings of length 1..%d over {., /, \\, 0xFF, NUL, a} through 19+ channels (file, directory and link entries) x 5 OS types, each parsed '
                        'through lha_reader_next_file (each (string, channel, OS) is a distinct header by construction); '
                        'distinct_nontrivial = parses that returned a header with a non-NULL path (where collapsing can matter)' % maxlen)
     ctx.cov['samples'] = [{'string': '2e2e2f61', 'channels': ['L0-name', 'L1-name', 'L2-ext-path+name', 'L2-symlink-in-filename', '...']},
